@@ -120,6 +120,10 @@ func (x *g) genMethod(sv *spec.Service, j int, used map[string]bool) {
 		m.Payload = &spec.Attr{Type: x.genObject(1, "")}
 		x.s.AddFeature("payload-inline")
 	}
+	// validation profile: carry a single-validation type in the body of payload and result
+	if len(x.solo) > 0 && m.Payload != nil && m.Payload.Type.Kind == spec.Object && x.chance(2, 3) {
+		m.Payload.Type.Attrs = append(m.Payload.Type.Attrs, &spec.Attr{Name: "solo_in", Type: &spec.Type{Kind: spec.Ref, Ref: x.solo[x.r.Intn(len(x.solo))]}})
+	}
 	// ---- security (needs an object payload we own: inline)
 	if len(x.s.Schemes) > 0 {
 		switch {
@@ -172,6 +176,9 @@ func (x *g) genMethod(sv *spec.Service, j int, used map[string]bool) {
 	default:
 		m.Result = &spec.Attr{Type: x.genObject(1, "")}
 		x.s.AddFeature("result-inline")
+	}
+	if len(x.solo) > 0 && m.Result != nil && m.Result.Type.Kind == spec.Object && x.chance(2, 3) {
+		m.Result.Type.Attrs = append(m.Result.Type.Attrs, &spec.Attr{Name: "solo_out", Type: &spec.Type{Kind: spec.Ref, Ref: x.solo[x.r.Intn(len(x.solo))]}})
 	}
 	// ---- errors
 	ne := 0
@@ -444,14 +451,70 @@ func (x *g) genHTTP(sv *spec.Service, m *spec.Method, idx int) {
 			}
 		}
 	}
+	// trailing catch-all wildcard {*name}: a plain string attribute of an inline object payload that would
+	// otherwise travel in the body; a later method of the same service may share the pattern under
+	// another verb with its own wildcard name
+	avoidVerb := ""
+	if p := m.Payload; p != nil && p.Type.Kind == spec.Object && !strings.Contains(path, "{") && h.Body == "" &&
+		(x.chance(1, 6) || (x.o.Profile == "http-loc" && x.chance(1, 2)) || x.catchAll[sv.Name] != nil && x.chance(2, 3)) {
+		has := false
+		for _, a := range p.Type.Attrs {
+			if a.Type.Kind == spec.String && a.Val.Empty() && !a.HasDef && a.Sec == "" && LocIsBody(h, a.Name) {
+				has = true
+			}
+		}
+		if !has {
+			used := map[string]bool{}
+			for _, a := range p.Type.Attrs {
+				used[spec.Norm(a.Name)] = true
+			}
+			n := "rest_path"
+			for used[spec.Norm(n)] {
+				n += "x"
+			}
+			p.Type.Attrs = append(p.Type.Attrs, &spec.Attr{Name: n, Type: &spec.Type{Kind: spec.String}})
+		}
+		for _, a := range p.Type.Attrs {
+			if a.Type.Kind == spec.String && a.Val.Empty() && !a.HasDef && a.Sec == "" && LocIsBody(h, a.Name) {
+				if prev := x.catchAll[sv.Name]; prev != nil && x.chance(2, 3) {
+					path = prev.prefix
+					avoidVerb = prev.verb
+					x.s.AddFeature("path-catchall-shared-pattern")
+				}
+				x.lastPrefix = path
+				path += "/{*" + a.Name + "}"
+				h.Path = append(h.Path, spec.Loc{Attr: a.Name})
+				if !p.Type.IsRequired(a.Name) {
+					p.Type.Required = append(p.Type.Required, a.Name)
+				}
+				x.s.AddFeature("path-catchall")
+				hasBody = len(x.unmapped(p.Type, h)) > 0
+				break
+			}
+		}
+	}
 	verb := "GET"
 	if hasBody {
 		verb = x.r.Pick("POST", "PUT", "PATCH", "POST")
 	} else if x.chance(1, 3) {
 		verb = x.r.Pick("DELETE", "POST", "PUT")
 	}
+	if verb == avoidVerb {
+		for _, alt := range []string{"PUT", "PATCH", "POST", "DELETE"} {
+			if alt != avoidVerb && (hasBody || alt == "DELETE" || alt == "PUT") {
+				verb = alt
+				break
+			}
+		}
+	}
+	if strings.Contains(path, "{*") && avoidVerb == "" {
+		if x.catchAll == nil {
+			x.catchAll = map[string]*catchAllInfo{}
+		}
+		x.catchAll[sv.Name] = &catchAllInfo{prefix: x.lastPrefix, verb: verb}
+	}
 	h.Routes = append(h.Routes, spec.Route{Verb: verb, Path: path})
-	if x.chance(1, 6) || (x.o.Profile == "openapi" && x.chance(1, 2)) {
+	if !strings.Contains(path, "{*") && (x.chance(1, 6) || (x.o.Profile == "openapi" && x.chance(1, 2))) {
 		alt := "/alt" + path
 		h.Routes = append(h.Routes, spec.Route{Verb: verb, Path: alt})
 		x.s.AddFeature("multi-route")
@@ -461,6 +524,17 @@ func (x *g) genHTTP(sv *spec.Service, m *spec.Method, idx int) {
 	// ---- error responses
 	for _, e := range m.Errors {
 		he := &spec.HTTPError{Name: e.Name, Status: pickErrStatus(x.r)}
+		if e.Type == nil {
+			// default ErrorResult type: sometimes carry the message in a header, sometimes no body at all
+			switch x.r.Intn(5) {
+			case 0:
+				he.Headers = append(he.Headers, spec.Loc{Attr: "message", Wire: "X-Err-Message"})
+				x.s.AddFeature("error-header")
+			case 1:
+				he.Body = "empty"
+				x.s.AddFeature("error-body-empty")
+			}
+		}
 		m.HTTP.Errors = append(m.HTTP.Errors, he)
 	}
 	// several errors on one status (goa-error header disambiguates)
@@ -556,17 +630,35 @@ func (x *g) genResponses(sv *spec.Service, m *spec.Method) {
 			}
 		}
 		// tagged responses: a string attribute selects an alternative status
-		if x.chance(1, 5) || (x.o.Profile == "http-loc" && x.chance(1, 3)) {
+		if x.chance(1, 4) || (x.o.Profile == "http-loc" && x.chance(1, 2)) {
 			for _, a := range rt.Attrs {
 				if a.Type.Kind == spec.String && a.Val.Empty() && !a.HasDef && !inLocs(r.Headers, a.Name) && !inLocs(r.Cookies, a.Name) {
-					tagged := &spec.HTTPResponse{Status: []int{201, 202, 206}[x.r.Intn(3)], TagAttr: a.Name, TagValue: x.r.Pick("special", "created", "x y")}
-					if tagged.Status == r.Status {
-						tagged.Status = 206
+					// 1-2 alternatives selected by different values of the same attribute (1-3 success responses in all)
+					statuses := []int{201, 202, 206}
+					vals := []string{"special", "created", "x y"}
+					perm := x.r.Perm(3)
+					nalt := 2
+					if x.chance(1, 3) {
+						nalt = 1
 					}
-					tagged.Headers = append([]spec.Loc(nil), r.Headers...)
-					tagged.Cookies = append([]spec.Loc(nil), r.Cookies...)
-					h.Responses = append(h.Responses, tagged)
+					used := 0
+					for _, pi := range perm {
+						if used >= nalt {
+							break
+						}
+						if statuses[pi] == r.Status {
+							continue
+						}
+						tagged := &spec.HTTPResponse{Status: statuses[pi], TagAttr: a.Name, TagValue: vals[pi]}
+						tagged.Headers = append([]spec.Loc(nil), r.Headers...)
+						tagged.Cookies = append([]spec.Loc(nil), r.Cookies...)
+						h.Responses = append(h.Responses, tagged)
+						used++
+					}
 					x.s.AddFeature("tagged-response")
+					if used > 1 {
+						x.s.AddFeature("tagged-response-multi")
+					}
 					break
 				}
 			}
@@ -593,4 +685,18 @@ func (x *g) genGRPC(sv *spec.Service, m *spec.Method) {
 	m.GRPC = g
 	// field tags on payload/result object attributes (inline only; user types get tags at definition)
 	x.s.AddFeature("grpc")
+}
+
+type catchAllInfo struct{ prefix, verb string }
+
+// LocIsBody reports whether an attribute is not mapped to path/query/header/cookie.
+func LocIsBody(h *spec.HTTP, attr string) bool {
+	for _, ls := range [][]spec.Loc{h.Path, h.Query, h.Headers, h.Cookies} {
+		for _, l := range ls {
+			if l.Attr == attr {
+				return false
+			}
+		}
+	}
+	return true
 }
